@@ -118,7 +118,8 @@ proof fn lemma_no_dots(fin: Seq<(Seq<char>, J)>, c1: Seq<(Seq<char>, J)>, m: Seq
 spec fn no_dots(j: J) -> bool { j is Obj ==> !j_has(j->Obj_0, K_DOTS()) }// ---- strategy path syntax (C05) ----
 spec fn has_dollar_prefix(p: Seq<char>) -> bool { p.len() >= 2 && p[0] == '$' && p[1] == '.' }
 spec fn paths_ok(s: Strat) -> bool { match s { Strat::Custom(ps) => forall|i: int| 0 <= i < ps.len() ==> has_dollar_prefix(#[trigger] ps[i]), _ => true } }
-spec fn finalized(s: Strat) -> Strat { match s { Strat::Custom(ps) => Strat::Custom(ps.map_values(|p: Seq<char>| p.skip(2))), _ => s } }
+spec fn skip2s(ps: Seq<Seq<char>>) -> Seq<Seq<char>> { ps.map_values(|p: Seq<char>| p.skip(2)) }
+spec fn finalized(s: Strat) -> Strat { match s { Strat::Custom(ps) => Strat::Custom(skip2s(ps)), _ => s } }
 broadcast axiom fn axiom_contains_refstr<'a, 'b>(s: Seq<&'a str>, x: &'b str)
     ensures #[trigger] slice_contains_spec::<&str>(s, x) == refstrs(s).contains(x@);
 // ---- `_sd` list shape, decoys (C12, C05) ----
